@@ -338,7 +338,8 @@ class HalfRankComponent(OutputWarper):
     )
 
     # Rank sort.
-    ranks = stats.rankdata(labels_arr, method='dense')  # nans ranked last.
+    # Rank the finite labels only (NaNs get a NaN rank and are not used).
+    ranks = stats.rankdata(labels_arr, method='dense', nan_policy='omit')
     dedup_median_index = unique_labels.searchsorted(median, 'left')
     denominator = (
         dedup_median_index + (unique_labels[dedup_median_index] == median) * 0.5
